@@ -443,6 +443,33 @@ func (w *World) stmtTextAt(pos token.Pos) string {
 	return t
 }
 
+// stmtOrdinal: 1-based position of the statement starting at sp among the
+// statements of the outermost enclosing function that have the same text.
+func (w *World) stmtOrdinal(fn *ssa.Function, sp token.Pos, txt string) int {
+	outer := fn
+	for outer.Parent() != nil {
+		outer = outer.Parent()
+	}
+	syn := outer.Syntax()
+	if syn == nil {
+		return 0
+	}
+	n, found := 0, 0
+	ast.Inspect(syn, func(x ast.Node) bool {
+		switch x.(type) {
+		case *ast.AssignStmt, *ast.IncDecStmt, *ast.ReturnStmt, *ast.ExprStmt, *ast.DeferStmt, *ast.GoStmt, *ast.SendStmt:
+			if normText(w.nodeText(x)) == txt {
+				n++
+				if x.Pos() == sp {
+					found = n
+				}
+			}
+		}
+		return true
+	})
+	return found
+}
+
 // scopeObject finds the object `name` denotes at pos inside fn.
 func (w *World) scopeObject(fn *ssa.Function, pos token.Pos, name string) types.Object {
 	if fn.Pkg == nil || !pos.IsValid() {
